@@ -4,7 +4,7 @@
 From Coq Require Import List ZArith QArith Lia Bool ZifyBool Arith.
 From PV Require Import lib.Sx lib.Str lib.Result lib.Dec.
 From PV Require Import model.TimeRead model.TimeTree model.XmlRead model.Chain model.DfxpWriteDoc model.DfxpReadLines.
-From PV Require Import spec.SpecTime spec.SpecTimeTree spec.SpecXmlDoc spec.SpecChain.
+From PV Require Import spec.SpecTime spec.SpecTimeTree spec.SpecXmlDocT spec.SpecChain.
 From PV Require Import proofs.TimeStrFacts proofs.XmlReadFacts proofs.DfxpWriteDocFacts.
 From PV Require Import proofs.ChainFacts proofs.ChainDocFacts proofs.ChainSrtDocFacts proofs.ChainVttDocFacts.
 Import ListNotations.
